@@ -501,9 +501,74 @@ def filter_slice_form(R, ft, fcfg, pfor, outer, pat, repl, lst, iv, len_aliases)
     ends = [n for n in fcfg.nodes if n.kind == "stmt" and isinstance(n.ast, ast.Assign) and len(n.ast.targets) == 1 and isinstance(n.ast.targets[0], ast.Name)
             and q.src(n.ast.value) in ("%s + len(%s)" % (iv, pat), "len(%s) + %s" % (pat, iv)) and any(n.ast is x for x in ast.walk(pfor))]
     if len(ends) != 1:
-        return False
+        return filter_index_form(R, ft, fcfg, pfor, outer, pat, repl, lst, iv, len_aliases)
     ev = ends[0].ast.targets[0].id
+    return _filter_all_form(R, ft, fcfg, pfor, outer, pat, repl, lst, iv, len_aliases, "slice", ev, None, None)
+
+
+def filter_index_form(R, ft, fcfg, pfor, outer, pat, repl, lst, iv, len_aliases):
+    """n = len(pattern); remaining = len(lst) - i; skipped when n > remaining; all(pattern[j] in lst[i + j] for j in range(n)); i = i + n."""
+    def alias_of(exprs, scope):
+        out = set(exprs)
+        for n in ast.walk(scope):
+            if isinstance(n, ast.Assign) and len(n.targets) == 1 and isinstance(n.targets[0], ast.Name) and q.src(n.value) in exprs:
+                out.add(n.targets[0].id)
+        return out
+    nv = alias_of(["len(%s)" % pat], pfor)
+    rem = alias_of(["%s - %s" % (a, iv) for a in len_aliases], outer)
+    if len(rem) < 1:
+        return False
+    return _filter_all_form(R, ft, fcfg, pfor, outer, pat, repl, lst, iv, len_aliases, "index", None, nv, rem)
+
+
+def _filter_all_form(R, ft, fcfg, pfor, outer, pat, repl, lst, iv, len_aliases, form, ev, nv, rem):
     site = R.site(ft, pfor)
+    if form == "index":
+        def is_match(nd):
+            if nd.kind != "test" or not (isinstance(nd.ast, ast.Call) and q.call_name(nd.ast) == "all" and len(nd.ast.args) == 1):
+                return None
+            g = nd.ast.args[0]
+            if not isinstance(g, (ast.GeneratorExp, ast.ListComp)) or len(g.generators) != 1 or g.generators[0].ifs:
+                return None
+            gen = g.generators[0]
+            if not (isinstance(gen.target, ast.Name) and isinstance(gen.iter, ast.Call) and q.call_name(gen.iter) == "range" and len(gen.iter.args) == 1
+                    and q.src(gen.iter.args[0]) in nv):
+                return None
+            j = gen.target.id
+            ok = isinstance(g.elt, ast.Compare) and len(g.elt.ops) == 1 and isinstance(g.elt.ops[0], ast.In) and q.src(g.elt.left) == "%s[%s]" % (pat, j) \
+                and q.src(g.elt.comparators[0]) in ("%s[%s + %s]" % (lst, iv, j), "%s[%s + %s]" % (lst, j, iv))
+            return "T" if ok else None
+
+        def too_few(nd):
+            if nd.kind != "test":
+                return None
+            k, s, pos = q.atom_test(nd.ast)
+            if k == "lt" and s[0] in rem and s[1] in nv:
+                return "T" if pos else "F"
+            return None
+
+        def enough(nd):
+            if nd.kind != "test":
+                return None
+            k, s, pos = q.atom_test(nd.ast)
+            if k == "lt" and s[0] in rem and s[1] in nv:
+                return "F" if pos else "T"
+            if k == "lt" and s[0] in nv and s[1] in rem:
+                return "T" if pos else "F"
+            return None
+        jump_srcs = set("%s + %s" % (a, b) for x in nv for a, b in ((iv, x), (x, iv)))
+        matches = [n for n in fcfg.nodes if is_match(n) is not None]
+        if len(matches) != 1:
+            return False
+        mt = matches[0]
+        phead = kit.one(fcfg.nodes_for(pfor), "pattern loop header")
+        starts = [e.dst for e in fcfg.out_edges(phead.id, N) if e.label == "iter"]
+        return _filter_all_tail(R, ft, fcfg, pfor, outer, pat, repl, lst, iv, site, mt, phead, starts, too_few, enough, jump_srcs,
+                                "an index past the last line would raise IndexError", "index")
+    return _filter_slice_body(R, ft, fcfg, pfor, outer, pat, repl, lst, iv, len_aliases, ev, site)
+
+
+def _filter_slice_body(R, ft, fcfg, pfor, outer, pat, repl, lst, iv, len_aliases, ev, site):
 
     def is_match(nd):
         if nd.kind != "test" or not (isinstance(nd.ast, ast.Call) and q.call_name(nd.ast) == "all" and len(nd.ast.args) == 1):
@@ -542,10 +607,15 @@ def filter_slice_form(R, ft, fcfg, pfor, outer, pat, repl, lst, iv, len_aliases)
         if k == "lt" and s[0] == ev and s[1] in len_aliases:
             return "T" if pos else "F"
         return None
+    return _filter_all_tail(R, ft, fcfg, pfor, outer, pat, repl, lst, iv, site, mt, phead, starts, too_few, enough, set([ev]),
+                            "zip() stops early and a partial run at the end of the text is collapsed", "slice")
+
+
+def _filter_all_tail(R, ft, fcfg, pfor, outer, pat, repl, lst, iv, site, mt, phead, starts, too_few, enough, jump_srcs, short_effect, form):
     # the comparison runs only with enough lines (zip would silently compare a prefix otherwise)
     p = kit.path_avoiding_guard(fcfg, [mt], enough, N, sources=starts)
     R.check(p is None, "C18.FILTER", ft.qualname + ":complete", site, "a pattern is compared only when as many lines remain as it has",
-            "a pattern can be compared with fewer remaining lines than it has: zip() stops early and a partial run at the end of the text is collapsed",
+            "a pattern can be compared with fewer remaining lines than it has: " + short_effect,
             fcfg.fmt_path(p) if p else None)
     # a pattern is passed over without comparing only when too few lines remain (a complete run that ends with the last line is still a run)
     p = fcfg.find_path(starts, [phead], N, cut_nodes=[mt],
@@ -556,7 +626,9 @@ def filter_slice_form(R, ft, fcfg, pfor, outer, pat, repl, lst, iv, len_aliases)
     # on a match: marker emitted, cursor := end
     tstarts = [e.dst for e in fcfg.out_edges(mt.id, N) if e.label == "T"]
     emits = [n for n, c in kit.call_sites(ft, lambda c: q.attr_call(c)[1] == "append" and repl in q.names_loaded(c))]
-    jumps = [n for n in fcfg.nodes if n.kind == "stmt" and isinstance(n.ast, ast.Assign) and q.src(n.ast.targets[0]) == iv and q.src(n.ast.value) == ev]
+    jumps = [n for n in fcfg.nodes if n.kind == "stmt" and ((isinstance(n.ast, ast.Assign) and q.src(n.ast.targets[0]) == iv and q.src(n.ast.value) in jump_srcs)
+                                                            or (form == "index" and isinstance(n.ast, ast.AugAssign) and isinstance(n.ast.op, ast.Add) and q.src(n.ast.target) == iv
+                                                                and ("%s + %s" % (iv, q.src(n.ast.value))) in jump_srcs))]
     ohead = [n for n in fcfg.nodes if n.kind == "loop" and n.stmt is outer]
     p1 = fcfg.find_path(tstarts, ohead, N, cut_nodes=emits)
     p2 = fcfg.find_path(tstarts, ohead, N, cut_nodes=jumps)
@@ -576,7 +648,7 @@ def filter_slice_form(R, ft, fcfg, pfor, outer, pat, repl, lst, iv, len_aliases)
         ok = ok and fcfg.find_path([e.dst for e in fcfg.out_edges(cn.id, N)], ohead, N, cut_nodes=by_one) is None
     R.check(ok, "C18.FILTER", ft.qualname + ":copy", site, "a line that starts no complete run is copied and the cursor advances by one",
             "a line that starts no run is not copied, or the cursor does not advance by one")
-    R.info("filter_traceback is written in the slice form; the counter-loop rules do not apply")
+    R.info("filter_traceback is written in the %s form; the counter-loop rules do not apply" % form)
     return True
 
 
@@ -623,7 +695,9 @@ def filter_rules(R):
                 other = [x for x in sides if x not in plen][0]
                 if other.isidentifier():
                     jv = other
-    if jv is None and filter_slice_form(R, ft, fcfg, pfor, outer, pat, repl, lst, iv, len_aliases):
+    has_inc = jv is not None and any(n.kind == "stmt" and isinstance(n.ast, ast.AugAssign) and q.src(n.ast.target) == jv and any(n.ast is x for x in ast.walk(pfor))
+                                     for n in fcfg.nodes)
+    if not has_inc and filter_slice_form(R, ft, fcfg, pfor, outer, pat, repl, lst, iv, len_aliases):
         return
     R.need(jv is not None, "idiom: the match counter compared with len(pattern) was not found")
     incs = [n for n in fcfg.nodes if n.kind == "stmt" and isinstance(n.ast, ast.AugAssign) and q.src(n.ast.target) == jv and isinstance(n.ast.op, ast.Add) and q.src(n.ast.value) == "1"
